@@ -12,6 +12,12 @@ CHECKS = {
             "Trusts httpx.Response and TLC; body classes are represented by one concrete body each.", "§6 C12"),
 }
 
+CHECKS["C13"] = (["WsProtocol", "WsProtocol_MC", "WsProtocol_Trace"],
+    "TLA+ spec of the graphql-transport-ws client session, TLC exhaustive over all frame sequences up to a bound; every TLC terminal state replayed into the real execute_ws / generated subscription method; client-side event traces (scripted and loop-back websockets server) validated by WsProtocol_Trace",
+    "Every server frame sequence up to the bound (quick: <=5 frames model-checked, <=4 replayed; thorough: <=6 / <=5) over the 10 frame kinds of the statement is explored by TLC with all protocol invariants, and each is executed against the real iterator (plain, OTel, OTel+tracer; execute_ws and generated method); a trace the spec cannot explain, or a terminal state differing from TLC's, is a violation. The handshake clause runs against the installed websockets server on the loop-back interface.",
+    "Scripted connection mimics a real one (stops after close). Frames whose treatment the statement does not fix (next with null data, client-only types) are observed only. The real-server handshake is a known finding (F15); the rest of real sessions is validated through a keyword-renaming adapter.",
+    "§6 C13")
+
 NOT_YET = {}
 
 
